@@ -7,7 +7,7 @@ HARNESS = "b_codecB_p2pwire"
 PKG = "p2pserver/message/types"
 MAX_PAYLOAD_LEN = 30 * 1024 * 1024 - 24
 REJECT = ("magic", "toolong", "checksum", "eof", "err")
-KINDS = ("base", "trunc", "byte", "count", "trail", "magic", "length", "checksum", "header", "random", "randomtrail", "wrap")
+KINDS = ("base", "trunc", "byte", "count", "trail", "magic", "length", "checksum", "header", "random", "randomtrail", "wrap", "pair")
 
 
 def run_cases(ctx, binary, cases, tag):
@@ -130,6 +130,9 @@ def judge(ctx, cases, obs):
         if o["alloc"] > bound:
             ctx.violation("%s:allocation-beyond-bound:%s" % (cmd, kind), {"alloc": o["alloc"], "bound": bound, "stream_bytes": o["stream"], "case": slim(c)}, rp)
         # --- accept / reject and round trip
+        if o.get("later"):
+            ctx.violation("%s:message-changed-by-later-read:%s" % (cmd, kind), {"diff": o.get("bad"), "case": slim(c)}, rp)
+            continue
         if spec in ("magic", "toolong", "checksum") and real == "ok":
             ctx.violation("ReadMessage:accepts-bad-%s" % {"magic": "magic", "toolong": "length", "checksum": "checksum"}[spec], {"case": slim(c)}, rp)
         elif spec == "any":
